@@ -166,7 +166,7 @@ func runC15(c C15Case) (st Stats, err error) {
 			}
 		}
 		p := guard(func() { src.SetID("probe"); src.SetID("") })
-		stackage.VerifHook = nil
+		InstallLockWatch()
 		if locked || p != "" {
 			return st, violf("source-lock-leaked", "after Transfer the source cannot be locked again: %s", p)
 		}
